@@ -354,7 +354,7 @@ def storeGroup (temp : List Nat) (want : Nat) : List Int :=
   if want ≥ 8 then temp.map satI16 else (temp.take want).map truncI16
 
 /-- `for (g = 0; g < num_groups && count < max_values; g++)`: values stored and unread input
-(a truncated group `break`s this loop only) -/
+(a truncated group ends this loop; whether it did is `groupsCut`) -/
 def levelsGroups (w : Nat) : Nat → List UInt8 → Nat → List Int × List UInt8
   | 0, rest, _ => ([], rest)
   | g + 1, rest, want =>
@@ -364,8 +364,44 @@ def levelsGroups (w : Nat) : Nat → List UInt8 → Nat → List Int × List UIn
       (storeGroup (Bitpack.unpack8 w rest) want ++ (levelsGroups w g (rest.drop w) (want - min 8 want)).1,
        (levelsGroups w g (rest.drop w) (want - min 8 want)).2)
 
+/-- the loop BEFORE repair F58: a bit-packed group that is cut short only `break`s the group loop,
+and the leftover bytes are parsed as the next run header (kept for `C11_regression_F58` and as the
+stepping stone of the completeness proof, Proofs/RleLevels.lean) -/
+def levelsLoopPreF58 (w : Nat) : Nat → List UInt8 → Nat → List Int
+  | 0, _, _ => []
+  | f + 1, bs, want =>
+    if want = 0 then []
+    else if bs.length = 0 then []
+    else if (Varint.readHeaderLevels bs).1 &&& 1 = 0 then
+      if (Varint.readHeaderLevels bs).2.length < valueBytes w then []
+      else if (Varint.readHeaderLevels bs).1 >>> 1 = 0 then
+        levelsLoopPreF58 w f ((Varint.readHeaderLevels bs).2.drop (valueBytes w)) want
+      else
+        List.replicate (min ((Varint.readHeaderLevels bs).1 >>> 1) want)
+            (truncI16 (Bitpack.leNat ((Varint.readHeaderLevels bs).2.take (valueBytes w)) &&& valueMask w)) ++
+          levelsLoopPreF58 w f ((Varint.readHeaderLevels bs).2.drop (valueBytes w))
+            (want - min ((Varint.readHeaderLevels bs).1 >>> 1) want)
+    else
+      if ((Varint.readHeaderLevels bs).1 >>> 1) * 8 = 0 then
+        levelsLoopPreF58 w f (Varint.readHeaderLevels bs).2 want
+      else
+        (levelsGroups w ((Varint.readHeaderLevels bs).1 >>> 1) (Varint.readHeaderLevels bs).2 want).1 ++
+          levelsLoopPreF58 w f
+            (levelsGroups w ((Varint.readHeaderLevels bs).1 >>> 1) (Varint.readHeaderLevels bs).2 want).2
+            (want - (levelsGroups w ((Varint.readHeaderLevels bs).1 >>> 1) (Varint.readHeaderLevels bs).2 want).1.length)
+
+/-- the group loop of a bit-packed run stopped because fewer than `w` bytes were left for a group
+(`if (pos + bit_width > input_size) return count;` after F58) -/
+def groupsCut (w : Nat) : Nat → List UInt8 → Nat → Bool
+  | 0, _, _ => false
+  | g + 1, rest, want =>
+    if want = 0 then false
+    else if rest.length < w then true
+    else groupsCut w g (rest.drop w) (want - min 8 want)
+
 /-- `while (count < max_values && pos < input_size)` of `carquet_rle_decode_levels`
-(every iteration consumes ≥ 1 byte; fuel `input_size + 1`).  RLE branch as repaired by F31. -/
+(every iteration consumes ≥ 1 byte; fuel `input_size + 1`).  RLE branch as repaired by F31;
+a bit-packed group that is cut short ends the decoding (repair F58: `return count`). -/
 def levelsLoop (w : Nat) : Nat → List UInt8 → Nat → List Int
   | 0, _, _ => []
   | f + 1, bs, want =>
@@ -383,14 +419,20 @@ def levelsLoop (w : Nat) : Nat → List UInt8 → Nat → List Int
     else
       if ((Varint.readHeaderLevels bs).1 >>> 1) * 8 = 0 then
         levelsLoop w f (Varint.readHeaderLevels bs).2 want
+      else if groupsCut w ((Varint.readHeaderLevels bs).1 >>> 1) (Varint.readHeaderLevels bs).2 want then
+        (levelsGroups w ((Varint.readHeaderLevels bs).1 >>> 1) (Varint.readHeaderLevels bs).2 want).1
       else
         (levelsGroups w ((Varint.readHeaderLevels bs).1 >>> 1) (Varint.readHeaderLevels bs).2 want).1 ++
           levelsLoop w f
             (levelsGroups w ((Varint.readHeaderLevels bs).1 >>> 1) (Varint.readHeaderLevels bs).2 want).2
             (want - (levelsGroups w ((Varint.readHeaderLevels bs).1 >>> 1) (Varint.readHeaderLevels bs).2 want).1.length)
 
+/-- `carquet_rle_decode_levels` before repair F58 -/
+def decodeLevelsPreF58 (w : Nat) (bytes : List UInt8) (maxValues : Nat) : List Int :=
+  levelsLoopPreF58 w (bytes.length + 1) bytes maxValues
+
 /-- `carquet_rle_decode_levels(input, input_size, bit_width, output, max_values)`: the levels
-stored (their number is the return value; never an error) -/
+stored (their number is the return value; never an error), as repaired by F58 -/
 def decodeLevels (w : Nat) (bytes : List UInt8) (maxValues : Nat) : List Int :=
   levelsLoop w (bytes.length + 1) bytes maxValues
 
@@ -423,9 +465,11 @@ example : encode 3 [] = [] := by decide
 example : decodeAll 3 [0x00, 0x05, 0x02, 0x03] 1 = [3] := by decide
 
 -- quirks of the two decoders on malformed / out-of-range input (checked against the C code by the harness)
--- a truncated bit-packed group stops `decode_all` (status INVALID_RLE, nothing returned) but only
--- `break`s the group loop of `decode_levels`, which goes on parsing the leftover bytes as a header:
-example : decodeAll 8 [0x03, 0x02, 0x05] 4 = [] ∧ decodeLevels 8 [0x03, 0x02, 0x05] 4 = [5] := by decide
+-- a truncated bit-packed group stops `decode_all` (status INVALID_RLE, nothing returned); before F58 it
+-- only `break`s the group loop of `decode_levels`, which went on parsing the leftover bytes as a
+-- header; after F58 `decode_levels` stops there too:
+example : decodeAll 8 [0x03, 0x02, 0x05] 4 = [] ∧ decodeLevelsPreF58 8 [0x03, 0x02, 0x05] 4 = [5] ∧
+    decodeLevels 8 [0x03, 0x02, 0x05] 4 = [] := by decide
 -- width 16, value 40000: a whole group of 8 goes through the saturating SSE2 pack (32767), a partial
 -- group and an RLE run through truncation (40000 − 65536):
 example : decodeLevels 16 ([0x03] ++ (List.replicate 8 [0x40, 0x9C]).flatten) 8 = List.replicate 8 32767 := by decide
